@@ -342,6 +342,10 @@ def handler : Handler := fun op j =>
     let c ← (fStr? j "cls").bind optClass?
     let sv ← (fStr? j "solver").bind admmSolver?
     some (ok (jArr ((fieldNames c sv (← fBool? j "obj")).map jS)))
+  | "objeval" => do
+    let c ← (fStr? j "cls").bind optClass?
+    let gs ← (field? j "gs").bind (getListOf? getBool?)
+    some (ok (jB (objectiveEvaluable c (← fBool? j "fgiven") (← fBool? j "fhas") gs)))
   | "fieldspecs" => do
     let c ← (fStr? j "cls").bind optClass?
     let sv ← (fStr? j "solver").bind admmSolver?
